@@ -8,7 +8,7 @@ use crate::engine::{idx, part, Ctx, PartDef, Rec};
 pub use crate::opgrammar::{check_grammar_string, no_panic, render, Comp, OpCase, Term};
 
 pub const TITLE: &str = "Symmetry-operation strings parse to the affine map they denote";
-pub const RULE: &str = "part grammar: an AST per component = a permutation of a non-empty subset of {+-x, +-y, +-c}, c = d or d/d' (single digits, d' != 0), rendered with optional leading '+', optional spaces after the comma and around binary +/-, optional enclosing parentheses; two components. Oracle: from_operations is Ok and maps 5 generated points to the AST's value (abs 1e-12). Spaces are never put inside d/d' or between a sign and its term, so a stricter but correct parser is not blamed. Non-trivial = some component has >= 2 terms and starts with a constant or a negated variable. part arbitrary: any::<String>(), strings over the alphabet \"xyXYz0-9+-*/(),. \\t\" and single-character mutations of grammar strings; oracle: the call returns (Ok or Err) without panicking; non-trivial = the string is not in the grammar and has >= 3 characters. Distinct by hash of the string.";
+pub const RULE: &str = "part grammar: an AST per component = a permutation of a non-empty subset of {+-x, +-y, +-c}, c = d or d/d' (single digits, d' != 0), rendered with optional leading '+', optional spaces after the comma and around binary +/-, optional enclosing parentheses; two components. Oracle: from_operations is Ok and maps 5 generated points to the AST's value (abs 1e-12). Spaces are never put inside d/d' or after a leading unary sign, so a stricter but correct parser is not blamed; blanks on either side of a binary + or - (x - 1/2) are part of the grammar (the statement's 'optional spaces'). Non-trivial = some component has >= 2 terms and starts with a constant or a negated variable. part arbitrary: any::<String>(), strings over the alphabet \"xyXYz0-9+-*/(),. \\t\" and single-character mutations of grammar strings; oracle: the call returns (Ok or Err) without panicking; non-trivial = the string is not in the grammar and has >= 3 characters. Distinct by hash of the string.";
 
 pub fn assumptions() -> Vec<&'static str> {
     vec!["nothing is asserted about which non-grammar strings are accepted", "the thorough tier adds a libFuzzer campaign over the same two oracles (fuzz/ directory), reported in the evidence"]
@@ -238,8 +238,8 @@ fn libfuzzer_part(ctx: &Ctx, ev: &mut crate::evidence::Evidence) {
 
 pub fn parts() -> Vec<PartDef> {
     vec![
-        part("grammar", 300_000, 10_000_000, |_| grammar_case(), grammar_oracle),
-        part("arbitrary", 300_000, 10_000_000, arbitrary_strat, arbitrary_oracle),
+        part("grammar", 3_000_000, 60_000_000, |_| grammar_case(), grammar_oracle),
+        part("arbitrary", 3_000_000, 60_000_000, arbitrary_strat, arbitrary_oracle),
         crate::engine::custom_part("libfuzzer", libfuzzer_part, |_, _, _| Err("libFuzzer findings are replayed through the grammar/arbitrary parts".to_string())),
     ]
 }
